@@ -10,6 +10,7 @@ package cgroup
 // (also when another creator made it concurrently). A handle destroys the group only if it created it.
 //@ func pkg/cgroup.EnsureDirExists props C20
 //@   arith int
+//@   assume os.ErrExist != nil
 //@   assigns G.made
 //@   ensures result == nil ==> G.made[path]
 //@   ensures forall p string :: p != path ==> G.made[p] == old(G.made[p])
